@@ -1485,10 +1485,10 @@ struct const_subarray : array_types<T, D, ElementPtr, Layout> {
 	}
 
  public:
-	       constexpr auto reversed()           const&    -> basic_const_array { return reversed_aux_(); }
+	       constexpr auto reversed()           const&    ->    const_subarray { return reversed_aux_(); }
 	       constexpr auto reversed()                &    ->          const_subarray { return reversed_aux_(); }
 	       constexpr auto reversed()               &&    ->          const_subarray { return reversed_aux_(); }
-	friend constexpr auto reversed(const_subarray const& self) -> basic_const_array { return           self .reversed(); }
+	friend constexpr auto reversed(const_subarray const& self) ->    const_subarray { return           self .reversed(); }
 	friend constexpr auto reversed(const_subarray      & self) ->          const_subarray { return           self .reversed(); }
 	friend constexpr auto reversed(const_subarray     && self) ->          const_subarray { return std::move(self).reversed(); }
 
@@ -2266,6 +2266,22 @@ class subarray : public const_subarray<T, D, ElementPtr, Layout> {
 	using const_subarray<T, D, ElementPtr, Layout>::partitioned;
 	BOOST_MULTI_HD constexpr auto partitioned(size_type size)      & -> subarray<T, D+1, typename subarray::element_ptr> { return this->partitioned_aux_(size); }
 	BOOST_MULTI_HD constexpr auto partitioned(size_type size)     && -> subarray<T, D+1, typename subarray::element_ptr> { return this->partitioned_aux_(size); }
+
+	// mutable counterparts of chunked/reversed/front/back (deduced return types because subarray<T, 0> has none of them)
+	BOOST_MULTI_HD constexpr auto chunked(size_type count) const& { return const_subarray<T, D, ElementPtr, Layout>::chunked(count); }
+	BOOST_MULTI_HD constexpr auto chunked(size_type count)      & { return this->chunked_aux_(count); }
+	BOOST_MULTI_HD constexpr auto chunked(size_type count)     && { return this->chunked_aux_(count); }
+
+	constexpr auto reversed() const& { return const_subarray<T, D, ElementPtr, Layout>::reversed(); }
+	constexpr auto reversed()      & { return subarray(this->reversed_aux_()); }
+	constexpr auto reversed()     && { return subarray(this->reversed_aux_()); }
+
+	constexpr auto front() const& -> decltype(auto) { return const_subarray<T, D, ElementPtr, Layout>::front(); }
+	constexpr auto front()      & -> decltype(auto) { return *this->begin(); }
+	constexpr auto front()     && -> decltype(auto) { return *this->begin(); }
+	constexpr auto back()  const& -> decltype(auto) { return const_subarray<T, D, ElementPtr, Layout>::back(); }
+	constexpr auto back()       & -> decltype(auto) { return *(this->end() - 1); }
+	constexpr auto back()      && -> decltype(auto) { return *(this->end() - 1); }
 
 	using const_subarray<T, D, ElementPtr, Layout>::flatted;
 	constexpr auto flatted() & {
@@ -3076,11 +3092,11 @@ struct const_subarray<T, 1, ElementPtr, Layout>  // NOLINT(fuchsia-multiple-inhe
 	}
 
  public:
-	constexpr auto reversed() const& -> basic_const_array {return reversed_aux_();}
+	constexpr auto reversed() const& ->    const_subarray {return reversed_aux_();}
 	constexpr auto reversed()      & -> const_subarray {return reversed_aux_();}
 	constexpr auto reversed()     && -> const_subarray {return reversed_aux_();}
 
-	friend constexpr auto reversed(const_subarray const& self) -> basic_const_array {return           self .reversed();}
+	friend constexpr auto reversed(const_subarray const& self) ->    const_subarray {return           self .reversed();}
 	friend constexpr auto reversed(const_subarray      & self) -> const_subarray {return           self .reversed();}
 	friend constexpr auto reversed(const_subarray     && self) -> const_subarray {return std::move(self).reversed();}
 
